@@ -1829,3 +1829,238 @@ Proof.
   destruct (append_entries_contiguous_node _ _ _ _ _ _ _ A Hb Hm Hms Ht) as (B & C0 & _).
   split; assumption.
 Qed.
+
+(* ================================================================== *)
+(* Samples: non-vacuity of the trace theorems, and witnesses that the    *)
+(* caller-side preconditions are needed (each violates RepInv)           *)
+(* ================================================================== *)
+Module RepInvSamples.
+  Import Samples.
+
+  Lemma store0_inv : SInv store0.
+  Proof. unfold MemStorageProofs.RepInv, next_of, first_of, store0, u64_max. cbn. repeat split; lia. Qed.
+
+  Lemma node0_new : rn_new cfg store0 None [15; 15; 15; 15] = Ok (inr node0).
+  Proof. vm_compute. reflexivity. Qed.
+
+  Lemma node0_inv : NLI false node0.
+  Proof. destruct (rn_new_pres _ _ _ _ _ node0_new store0_inv eq_refl) as (_ & H & _). apply H. reflexivity. Qed.
+
+  (* a single voter: campaign (becomes leader, appends the empty entry), Ready, the
+     application appends the Ready's entries, advance_append *)
+  Example ex_leader_trace : wrun node0 node3.
+  Proof.
+    eapply (wrun_cons node0 OCampaign node1); [vm_compute; reflexivity|vm_compute; reflexivity|].
+    eapply (wrun_cons node1 OReady (fst ready1)); [exact I|vm_compute; reflexivity|].
+    eapply (wrun_cons (fst ready1) (OSetStore store1) node2).
+    { apply SW_entries; [reflexivity|vm_compute; reflexivity]. }
+    { reflexivity. }
+    eapply (wrun_cons node2 (OAdvanceAppend (snd ready1)) node3).
+    { split.
+      - split; [intros C; vm_compute in C; congruence|intros _; vm_compute; reflexivity].
+      - unfold persist_pre. vm_compute. intros C; discriminate. }
+    { vm_compute. reflexivity. }
+    constructor.
+  Qed.
+
+  Example ex_leader_inv :
+    NLI false node3 /\ committed (nlog node3) = 1 /\ last_index (nlog node3) = 1
+    /\ persisted (nlog node3) = 1.
+  Proof. split; [exact (wrun_pres false _ _ ex_leader_trace node0_inv)|]. vm_compute. repeat split. Qed.
+
+  (* a follower of a three-voter group: MsgAppend with two entries, Ready, write,
+     advance; then MsgSnapshot at index 5, Ready, apply the snapshot, advance *)
+  Definition store3 : MemStorage.mem :=
+    match MemStorage.new_with_conf_state (cs_from [1;2;3] []) with Ok m => m | Panic _ => MemStorage.new end.
+
+  Definition f0 : rawnode.
+  Proof.
+    let x := eval vm_compute in (rn_new cfg store3 None [15; 15; 15; 15]) in
+    match x with Ok (inr ?n) => exact n end.
+  Defined.
+
+  Definition app1 : msg :=
+    msg_default <| m_type := MsgAppend |> <| m_from := 2 |> <| m_to := 1 |> <| m_term := 1 |>
+      <| m_entries := [mkEntry 0 1 1 [] []; mkEntry 0 1 2 [7] []] |> <| m_commit := 1 |>.
+
+  Definition f1 : rawnode. Proof. from_ok (x <- exec f0 (OStep app1) ;; Ok (fst x)). Defined.
+  Definition rd1 : rawnode * ready. Proof. from_ok (rn_ready f1). Defined.
+  Definition st1 : MemStorage.mem.
+  Proof.
+    let x := eval vm_compute in (write_ready (store (nlog f1)) (snd rd1)) in
+    match x with Ok (Some ?n) => exact n end.
+  Defined.
+  Definition f2 : rawnode := set_store_node (fst rd1) st1.
+  Definition f3 : rawnode. Proof. from_ok (x <- rn_advance f2 (snd rd1) ;; Ok (fst x)). Defined.
+
+  Definition snapm : msg :=
+    msg_default <| m_type := MsgSnapshot |> <| m_from := 2 |> <| m_to := 1 |> <| m_term := 1 |>
+      <| m_snapshot := mkSnap 5 1 (cs_from [1;2;3] []) |>.
+
+  Definition f4 : rawnode. Proof. from_ok (x <- exec f3 (OStep snapm) ;; Ok (fst x)). Defined.
+  Definition rd2 : rawnode * ready. Proof. from_ok (rn_ready f4). Defined.
+  Definition st2 : MemStorage.mem.
+  Proof.
+    let x := eval vm_compute in (write_ready (store (nlog f4)) (snd rd2)) in
+    match x with Ok (Some ?n) => exact n end.
+  Defined.
+  Definition f5 : rawnode := set_store_node (fst rd2) st2.
+  Definition f6 : rawnode. Proof. from_ok (x <- rn_advance f5 (snd rd2) ;; Ok (fst x)). Defined.
+
+  Lemma store3_inv : SInv store3.
+  Proof. unfold MemStorageProofs.RepInv, next_of, first_of, store3, u64_max. cbn. repeat split; lia. Qed.
+
+  Lemma f0_new : rn_new cfg store3 None [15; 15; 15; 15] = Ok (inr f0).
+  Proof. vm_compute. reflexivity. Qed.
+
+  Lemma f0_inv : NLI false f0.
+  Proof. destruct (rn_new_pres _ _ _ _ _ f0_new store3_inv eq_refl) as (_ & H & _). apply H. reflexivity. Qed.
+
+  Lemma app1_wf : msg_wf (nlast f0) app1.
+  Proof.
+    unfold msg_wf. split; [|split; [|split]]; intros E; try (vm_compute in E; discriminate E).
+    unfold append_wf. cbn. repeat split; try lia. repeat constructor; discriminate.
+  Qed.
+
+  Example ex_follower_trace : wrun f0 f6.
+  Proof.
+    eapply (wrun_cons f0 (OStep app1) f1); [exact app1_wf|vm_compute; reflexivity|].
+    eapply (wrun_cons f1 OReady (fst rd1)); [exact I|vm_compute; reflexivity|].
+    eapply (wrun_cons (fst rd1) (OSetStore st1) f2).
+    { apply SW_entries; [reflexivity|vm_compute; reflexivity]. }
+    { reflexivity. }
+    eapply (wrun_cons f2 (OAdvance (snd rd1)) f3).
+    { split; [split|].
+      - split; [intros C; vm_compute in C; congruence|intros _; vm_compute; reflexivity].
+      - unfold persist_pre. vm_compute. intros C; discriminate.
+      - vm_compute. reflexivity. }
+    { vm_compute. reflexivity. }
+    eapply (wrun_cons f3 (OStep snapm) f4).
+    { unfold msg_wf. split; [|split; [|split]]; intros E; try (vm_compute in E; discriminate E).
+      vm_compute. reflexivity. }
+    { vm_compute. reflexivity. }
+    eapply (wrun_cons f4 OReady (fst rd2)); [exact I|vm_compute; reflexivity|].
+    eapply (wrun_cons (fst rd2) (OSetStore st2) f5).
+    { apply SW_snapshot with (s := mkSnap 5 1 (cs_from [1;2;3] [])); [reflexivity|vm_compute; reflexivity]. }
+    { reflexivity. }
+    eapply (wrun_cons f5 (OAdvance (snd rd2)) f6).
+    { split; [split|].
+      - split; [intros _; vm_compute; repeat split|intros C; vm_compute in C; congruence].
+      - unfold persist_pre. vm_compute. intros _; reflexivity.
+      - vm_compute. reflexivity. }
+    { vm_compute. reflexivity. }
+    constructor.
+  Qed.
+
+  Example ex_follower_inv :
+    NLI false f6 /\ committed (nlog f6) = 5 /\ last_index (nlog f6) = 5
+    /\ applied (nlog f6) = 5 /\ persisted (nlog f6) = 5.
+  Proof. split; [exact (wrun_pres false _ _ ex_follower_trace f0_inv)|]. vm_compute. repeat split. Qed.
+
+  (* the restart window: Config.applied = 3 over an empty store *)
+  Definition cfg_a3 : config :=
+    mkCfg 1 10 1 3 1000 8 false false 0 0 0 false false 0%Z u64_max u64_max 0 false.
+  Definition w0 : rawnode.
+  Proof.
+    let x := eval vm_compute in (rn_new cfg_a3 store0 None [15; 15; 15; 15]) in
+    match x with Ok (inr ?n) => exact n end.
+  Defined.
+
+  Example restart_window_open :
+    rn_new cfg_a3 store0 None [15; 15; 15; 15] = Ok (inr w0)
+    /\ NLI true w0 /\ ~ NLI false w0 /\ applied (nlog w0) = 3 /\ committed (nlog w0) = 0.
+  Proof.
+    assert (E : rn_new cfg_a3 store0 None [15; 15; 15; 15] = Ok (inr w0)) by (vm_compute; reflexivity).
+    split; [exact E|]. split; [exact (proj1 (rn_new_pres _ _ _ _ _ E store0_inv eq_refl))|].
+    split; [|split; reflexivity].
+    intros H. pose proof (ri_applied false _ H eq_refl) as S. vm_compute in S. apply S. reflexivity.
+  Qed.
+
+  (* ---- the preconditions are needed ---- *)
+
+  (* commit_pre: stabilising before the storage write (advance_append_async straight
+     after ready) makes the unstable entry vanish from the log *)
+  Lemma ready1_inv : NLI false (fst ready1).
+  Proof.
+    eapply NLI_same; [eapply (rn_ready_log node1 (fst ready1) (snd ready1)); vm_compute; reflexivity|].
+    eapply (exec_pres false node0 OCampaign node1 no_out); [vm_compute; reflexivity|vm_compute; reflexivity|].
+    exact node0_inv.
+  Qed.
+
+  Theorem commit_ready_unwritten_refuted :
+    exists n', NLI false (fst ready1)
+      /\ rn_advance_append_async (fst ready1) (snd ready1) = Ok n'
+      /\ last_index (nlog (fst ready1)) = 1 /\ last_index (nlog n') = 0
+      /\ ~ NLogOK n'.
+  Proof.
+    eexists. split; [exact ready1_inv|]. split; [vm_compute; reflexivity|].
+    split; [reflexivity|]. split; [reflexivity|].
+    intros [rw H]. pose proof (ri_shape rw _ H) as S. vm_compute in S.
+    destruct S as ((_ & S) & _). apply S. reflexivity.
+  Qed.
+
+  (* persist_pre: acknowledging a Ready whose snapshot has not reached the storage
+     moves persisted beyond the storage's last index *)
+  Definition snap_rd : rawnode * ready. Proof. from_ok (rn_ready node_snap). Defined.
+
+  Lemma snap_rd_inv : NLI false (fst snap_rd).
+  Proof.
+    eapply NLI_same; [eapply (rn_ready_log node_snap (fst snap_rd) (snd snap_rd)); vm_compute; reflexivity|].
+    unfold NLI, LI.
+    assert (E : log_restore (r_log (rn_raft node0)) (mkSnap 5 1 (cs_from [1] []))
+                = Ok (r_log (rn_raft node_snap))) by (vm_compute; reflexivity).
+    refine (proj1 (log_restore_pres false _ _ _ E node0_inv _)). vm_compute. reflexivity.
+  Qed.
+
+  Theorem persist_unwritten_snapshot_refuted :
+    exists n', NLI false (fst snap_rd)
+      /\ rn_on_persist_ready (fst snap_rd) (rd_number (snd snap_rd)) = Ok n'
+      /\ persisted (nlog n') = 5 /\ storage_last_index (store (nlog n')) = 0
+      /\ ~ NLogOK n'.
+  Proof.
+    eexists. split; [exact snap_rd_inv|]. split; [vm_compute; reflexivity|].
+    split; [reflexivity|]. split; [reflexivity|].
+    intros [rw H]. pose proof (ri_persisted rw _ H) as S. vm_compute in S.
+    destruct S as (_ & S). discriminate S.
+  Qed.
+
+  (* msg_wf: the model (like the Rust) does not validate a MsgAppend: entries with a
+     gap in their indexes are stored as they are *)
+  Definition gapm : msg :=
+    msg_default <| m_type := MsgAppend |> <| m_from := 2 |> <| m_to := 1 |> <| m_term := 1 |>
+      <| m_entries := [mkEntry 0 1 1 [] []; mkEntry 0 1 3 [] []] |>.
+
+  Theorem append_gap_refuted :
+    exists n' c, NLI false f0 /\ rn_step f0 gapm = Ok (n', c)
+      /\ u_entries (unst (nlog n')) = [mkEntry 0 1 1 [] []; mkEntry 0 1 3 [] []] /\ ~ NLogOK n'.
+  Proof.
+    eexists. eexists. split; [exact f0_inv|]. split; [vm_compute; reflexivity|]. split; [reflexivity|].
+    intros [rw H]. pose proof (ri_contig rw _ H) as S. vm_compute in S.
+    destruct S as (_ & S & _). discriminate S.
+  Qed.
+
+  (* room: at last_index = u64::MAX - 1 the new leader's empty entry gets index
+     u64::MAX, outside RepInv's bound (the model numbers entries without an overflow check) *)
+  Definition store_hi : MemStorage.mem :=
+    mkMem hs_default (cs_from [1] []) [] (u64_max - 1) 1 false false None.
+
+  Lemma store_hi_inv : SInv store_hi.
+  Proof. unfold MemStorageProofs.RepInv, next_of, first_of, store_hi, u64_max. cbn. repeat split; lia. Qed.
+
+  Definition h0 : rawnode.
+  Proof.
+    let x := eval vm_compute in (rn_new cfg store_hi None [15; 15; 15; 15]) in
+    match x with Ok (inr ?n) => exact n end.
+  Defined.
+
+  Theorem room_needed :
+    exists n' c, NLI false h0 /\ last_index (nlog h0) = u64_max - 1
+      /\ rn_campaign h0 = Ok (n', c) /\ last_index (nlog n') = u64_max /\ ~ NLogOK n'.
+  Proof.
+    assert (E : rn_new cfg store_hi None [15; 15; 15; 15] = Ok (inr h0)) by (vm_compute; reflexivity).
+    eexists. eexists. split.
+    { destruct (rn_new_pres _ _ _ _ _ E store_hi_inv eq_refl) as (_ & H & _). apply H. reflexivity. }
+    split; [reflexivity|]. split; [vm_compute; reflexivity|]. split; [reflexivity|].
+    intros [rw H]. pose proof (RepInv_last_bound rw _ H) as S. vm_compute in S. discriminate S.
+  Qed.
+End RepInvSamples.
